@@ -109,9 +109,9 @@ def build_cases(ctx, recs):
         if e["kind"] in ("mat", "pert"):
             reqs = list(range(1, nc + 3))
             if e["kind"] == "pert":
-                reqs = [nc + 2]
-            elif q:
-                reqs = [r_ for r_ in reqs if r_ != nc + 1]
+                reqs = [nc + 2] if (q or idx % 2 == 0) else []
+            else:
+                reqs = [r_ for r_ in reqs if r_ != nc + 1]          # nc + 1 and nc + 2 are clamped to the same fit
             for req in reqs:
                 npc = min(req, nc)
                 kind = "zero" if rk == 0 else ("beyond-rank" if npc > rk else "within-rank")
@@ -130,7 +130,7 @@ def build_cases(ctx, recs):
                     if all(e["cc"][c0 + j] == 1 for j in range(wi)):
                         cb = 1
                     c0 += wi
-                for req in ([minw + 2] if q else [1, minw + 2]):
+                for req in [minw + 2]:
                     npc = min(req, minw)
                     kind = "zero" if rk == 0 else ("const-block" if cb else ("beyond-rank" if npc > rk else "within-rank"))
                     add("CPCA", kind, e, req, npc, rk, rk, noise, cblk=cb, widths=w)
@@ -139,12 +139,12 @@ def build_cases(ctx, recs):
             # and the matrix next to a constant block (zero after centring: same exact rank, block variance 0)
             allconst = all(c == 1 for c in e["cc"])
             for cells, cb in (([r_ + r_ for r_ in e["cells"]], 1 if allconst else 0), ([r_ + [1] * nc for r_ in e["cells"]], 1)):
-                for req in ([nc + 2] if q else [1, nc + 2]):
+                for req in [nc + 2]:
                     npc = min(req, nc)
                     kind = "zero" if rk == 0 else ("const-block" if cb else ("beyond-rank" if npc > rk else "within-rank"))
                     add("CPCA", kind, e, req, npc, rk, rk, noise, cblk=cb, widths=(nc, nc), cells=cells)
         if e["kind"] == "resp":
-            for req in (([1, nc + 2] if idx % 2 == 0 else [nc]) if q else ([1, nc + 2] if idx % 2 == 0 else [nc, nc + 1])):
+            for req in ([1, nc + 2] if idx % 2 == 0 else [nc]):
                 npc = min(req, nc)
                 if e["ycst"]:
                     kind, rlo, rhi = "const-response", 0, 0
@@ -309,7 +309,7 @@ def run(ctx):
     budget = 100000 if ctx.quick else 1000000
     blocks, clean = run_cases(ctx, cases, budget, 8 if ctx.quick else 20, 1 if ctx.quick else 3, "main")
     ctx.cov["rule"] = ("inputs enumerated by TLC (NipalsGen: matrices <= 3x3 over {-1,0,1}%s, dyadic perturbations 2^-3, all responses in {0,1}^rows) crossed with component "
-                       "requests 1..cols+2 / block splits / cluster counts; a case = one fit in a child process keyed by (site, exact rank, npc - rank, kind, shape, scaling); "
+                       "requests 1..cols and cols+2 (cols+1 is clamped to the same fit) / block splits / cluster counts; a case = one fit in a child process keyed by (site, exact rank, npc - rank, kind, shape, scaling); "
                        "non-trivial = more components than rank, rank 0, constant response, no covariance, constant block, duplicate rows or rank-deficient design"
                        % (", shapes with > 4 cells sampled deterministically" if ctx.quick else ", complete"))
     ctx.cov["exhaustive"] = not ctx.quick
